@@ -48,13 +48,15 @@ Definition frag_body (defs : list fdef) : pystr := join [","%char] (map def_str 
 Definition cut_string_of (body : pystr) (defs : list fdef) : pystr := dotted [block_of body; block_of (frag_body defs)].
 Definition cut_string (a : Grammar.chain) (defs : list fdef) : pystr := cut_string_of (Grammar.print_chain a) defs.
 
+Lemma tgraph_eq T : tgraph T = tmpl_graph T.
+Proof. reflexivity. Qed.
 Lemma mk_text_final fo name text :
   (r <- strip_bonding_descriptors fo text ;; mk_text fo true name r)
   = (T <- fragment_template_final fo name text ;; Ok (tmpl_graph T)).
 Proof.
   unfold fragment_template_final. destruct (strip_bonding_descriptors fo text) as [[[[clean d] ez] a]|e]; cbn [bind]; [|reflexivity].
   unfold mk_text. destruct (smiles_parse _) as [G|e]; cbn [bind]; [|reflexivity].
-  destruct (final_assemble name G d ez a); reflexivity.
+  destruct (final_assemble name G d ez a) as [T|e]; [|reflexivity]. cbn [bind]. now rewrite tgraph_eq.
 Qed.
 Lemma mk_text_coarse fo name text :
   (r <- strip_bonding_descriptors fo text ;; mk_text fo false name r) = FragRead.read_coarse_fragment fo name text.
